@@ -591,10 +591,16 @@ for _text_limit in ("maxstring", "maxother"):
 """),
     ],
     "mutants/c07_fix_blank_after_at_sign_reverted": [
-        (REPR, '_DECORATOR_RE = re.compile(r"^\\s*@\\s*[a-zA-Z_(]")\n', '_DECORATOR_RE = re.compile(r"^\\s*@[a-zA-Z_]")\n'),
+        (REPR, '_DECORATOR_RE = re.compile(r"^\\s*@\\s*(?:[^\\W\\d]|\\()")\n', '_DECORATOR_RE = re.compile(r"^\\s*@(?:[^\\W\\d])")\n'),
+    ],
+    "mutants/c07_fix_non_ascii_decorator_name_reverted": [
+        (REPR, '_DECORATOR_RE = re.compile(r"^\\s*@\\s*(?:[^\\W\\d]|\\()")\n', '_DECORATOR_RE = re.compile(r"^\\s*@\\s*[a-zA-Z_(]")\n'),
+    ],
+    "mutants/c07_fix_more_candidates_reverted": [
+        (REPR, "            (i for i in range(lineno, -1, -1) if _DECORATOR_RE.match(lines[i])), 16\n", "            (i for i in range(lineno, -1, -1) if _DECORATOR_RE.match(lines[i])), 3\n"),
     ],
     "mutants/c07_decorator_re_max_4_blanks": [
-        (REPR, '_DECORATOR_RE = re.compile(r"^\\s*@\\s*[a-zA-Z_(]")\n', '_DECORATOR_RE = re.compile(r"^\\s{0,12}@\\s*[a-zA-Z_(]")\n'),
+        (REPR, '_DECORATOR_RE = re.compile(r"^\\s*@\\s*(?:[^\\W\\d]|\\()")\n', '_DECORATOR_RE = re.compile(r"^\\s{0,12}@\\s*(?:[^\\W\\d]|\\()")\n'),
     ],
     "mutants/c20_fix_method_wrappers_left_out_reverted": [
         (REPR, "        and not isinstance(value, _METHOD_WRAPPER_TYPE)\n", ""),
